@@ -50,6 +50,7 @@ type JobSpec struct {
 	AllowPkgs    []string           `json:"allow_pkgs"`
 	InitPkgs     []string           `json:"init_pkgs"` // packages whose init() is executed first
 	FixedNow     int64              `json:"fixed_now"` // time.Now() returns this instant (ns since 1970)
+	ExecBudget   int                `json:"exec_budget_s"` // wall-clock cap on the symbolic execution of one instance
 	FloatUF      bool               `json:"float_uf"`
 	Solvers      []string           `json:"solvers"`
 	Timeout      int                `json:"timeout"`
@@ -234,6 +235,11 @@ func runInstance(lp *LoadedPkg, js *JobSpec, ps map[string]int64, pools map[stri
 		e.unwind = js.Unwind
 	}
 	e.trace = os.Getenv("SYMGO_TRACE") != ""
+	budget := js.ExecBudget
+	if budget == 0 {
+		budget = 400
+	}
+	e.deadline = time.Now().Add(time.Duration(budget) * time.Second)
 	timeout := js.Timeout
 	if timeout == 0 {
 		timeout = 120
